@@ -60,40 +60,23 @@ Proof.
   intros HT. unfold xx_line. rewrite <- app_assoc. apply (good_line crlf "X" ["X"] T); auto.
 Qed.
 
-Lemma good_field crlf a b v :
-  beq "/" a = false -> plain a = true -> plain b = true -> ofield_ok v = true ->
-  good_lines (print_field a b (eol_of crlf) v).
+(* a line "ab" ++ text ++ eol, a and b plain, a not '/' *)
+Lemma good_tagged crlf a b x T :
+  beq "/" a = false -> plain a = true -> plain b = true -> no_nl x = true -> utf8_valid x = true ->
+  good_lines T -> good_lines (a :: b :: x ++ eol_of crlf ++ T).
 Proof.
-  intros Ha Pa Pb Hv. destruct v as [x|]; [|apply gl_nil]. cbn [print_field].
-  destruct (field_ok_parts x Hv) as (H1 & H2 & _).
-  change ([a; b; " "; " "] ++ x ++ eol_of crlf ++ xx_line (eol_of crlf))
-    with ((a :: b :: " " :: " " :: x) ++ eol_of crlf ++ xx_line (eol_of crlf)).
-  apply good_line; [exact Ha| | |].
-  - change (a :: b :: " " :: " " :: x) with ([a; b; " "; " "] ++ x). rewrite no_nl_app, H1.
-    destruct (plain_text [a; b; " "; " "]) as [K _]; [cbn [forallb]; rewrite Pa, Pb; reflexivity|].
+  intros Ha Pa Pb H1 H2 HT.
+  change (a :: b :: x ++ eol_of crlf ++ T) with ((a :: b :: x) ++ eol_of crlf ++ T).
+  apply good_line; [exact Ha| | |exact HT].
+  - change (a :: b :: x) with ([a; b] ++ x). rewrite no_nl_app, H1.
+    destruct (plain_text [a; b]) as [K _]; [cbn [forallb]; rewrite Pa, Pb; reflexivity|].
     rewrite K. reflexivity.
-  - change (a :: b :: " " :: " " :: x) with ([a; b; " "; " "] ++ x). apply utf8_valid_app; [|exact H2].
+  - change (a :: b :: x) with ([a; b] ++ x). apply utf8_valid_app; [|exact H2].
     apply plain_text. cbn [forallb]. rewrite Pa, Pb. reflexivity.
-  - rewrite <- (app_nil_r (xx_line _)). apply good_xx, gl_nil.
 Qed.
 
 Lemma sym_plain al c k : sym_index al c = Some k -> plain c = true.
 Proof. destruct al; destruct c; simpl; intros H; try discriminate; reflexivity. Qed.
-
-Lemma uint_loop_digits maxv l : forall acc first v,
-  uint_loop maxv l acc first = POk v [] -> forallb is_digit l = true.
-Proof.
-  induction l as [|b t IH]; intros acc first v H; [reflexivity|]. simpl in *.
-  destruct (is_digit b); [|destruct first; [discriminate|inversion H]].
-  destruct (N.ltb maxv _); [discriminate|]. simpl. exact (IH _ _ _ H).
-Qed.
-
-Lemma forallb_impl {A} (f g : A -> bool) l :
-  (forall x, f x = true -> g x = true) -> forallb f l = true -> forallb g l = true.
-Proof.
-  intros H. induction l as [|x t IH]; [reflexivity|]. simpl. intros K.
-  apply andb_true_iff in K. destruct K as [K1 K2]. rewrite (H _ K1), (IH K2). reflexivity.
-Qed.
 
 Lemma label_plain l : label_ok l = true -> forallb plain l = true.
 Proof.
@@ -157,35 +140,88 @@ Proof.
   cbn [forallb]. rewrite (sym_plain al c k Ek). reflexivity.
 Qed.
 
-Lemma good_matrix al crlf po sep syms rows : matrix_ok al sep syms rows = true ->
-  good_lines (print_matrix (eol_of crlf) po sep syms rows).
+Lemma good_refline crlf l T : refline_ok l = true -> good_lines T ->
+  good_lines (print_refline (eol_of crlf) l ++ T).
 Proof.
-  intros H. destruct syms as [|c cs]; [apply gl_nil|].
-  unfold matrix_ok in H. apply andb_true_iff in H. destruct H as [H Hrows].
-  apply andb_true_iff in H. destruct H as [H _]. apply andb_true_iff in H. destruct H as [Hidx Hsep].
-  destruct (sym_indices al (c :: cs)) as [idx|] eqn:Ei; [|discriminate].
-  destruct (sep_ok_parts sep Hsep) as (_ & Hbl & _).
-  unfold print_matrix. fold (sym_text sep (c :: cs)).
-  change (["P"; if po then "O" else "0"] ++ sym_text sep (c :: cs) ++ eol_of crlf ++
-          flat_map (print_row (eol_of crlf) sep) rows ++ xx_line (eol_of crlf))
-    with (("P" :: (if po then "O" else "0") :: sym_text sep (c :: cs)) ++ eol_of crlf ++
-          flat_map (print_row (eol_of crlf) sep) rows ++ xx_line (eol_of crlf)).
-  assert (P : forallb plain ("P" :: (if po then "O" else "0") :: sym_text sep (c :: cs)) = true).
-  { cbn [forallb]. rewrite (sym_text_plain' al sep _ idx Hbl Ei). destruct po; reflexivity. }
-  destruct (plain_text _ P) as [P1 P2]. apply good_line; [reflexivity|exact P1|exact P2|].
-  apply (good_rows crlf sep (length (c :: cs))); [exact Hsep|exact Hrows|].
-  rewrite <- (app_nil_r (xx_line _)). apply good_xx, gl_nil.
+  intros Hok HT. destruct l as [p|t|t|t]; cbn [print_refline refline_ok] in *.
+  - apply andb_true_iff in Hok. destruct Hok as [Hok _]. apply andb_true_iff in Hok. destruct Hok as [Hok _].
+    apply andb_true_iff in Hok. destruct Hok as [Hn Hu].
+    assert (E : (["R"; "X"; " "; " "; "P"; "U"; "B"; "M"; "E"; "D"; ":"; " "] ++ p ++ ["."] ++ eol_of crlf) ++ T
+                = "R" :: "X" :: ([" "; " "; "P"; "U"; "B"; "M"; "E"; "D"; ":"; " "] ++ p ++ ["."]) ++ eol_of crlf ++ T).
+    { cbn [app]. rewrite <- !app_assoc. reflexivity. }
+    rewrite E.
+    apply good_tagged; try reflexivity; try exact HT.
+    + rewrite !no_nl_app, Hn. reflexivity.
+    + apply utf8_valid_app; [reflexivity|]. apply utf8_valid_app; [exact Hu|reflexivity].
+  - apply andb_true_iff in Hok. destruct Hok as [Hn Hu]. cbn [app]. rewrite <- !app_assoc.
+    apply good_tagged; try reflexivity; assumption.
+  - destruct (field_ok_parts t Hok) as (H1 & H2 & _). cbn [app]. rewrite <- !app_assoc.
+    change ("R" :: "T" :: " " :: " " :: t ++ eol_of crlf ++ T) with ("R" :: "T" :: (" " :: " " :: t) ++ eol_of crlf ++ T).
+    apply good_tagged; try reflexivity; try exact HT; [cbn [no_nl forallb]; exact H1|exact H2].
+  - destruct (field_ok_parts t Hok) as (H1 & H2 & _). cbn [app]. rewrite <- !app_assoc.
+    change ("R" :: "L" :: " " :: " " :: t ++ eol_of crlf ++ T) with ("R" :: "L" :: (" " :: " " :: t) ++ eol_of crlf ++ T).
+    apply good_tagged; try reflexivity; try exact HT; [cbn [no_nl forallb]; exact H1|exact H2].
 Qed.
 
-Lemma good_body al crlf p : prec_ok al p = true -> good_lines (print_body (eol_of crlf) p).
+Lemma good_reflines crlf lines T : forallb refline_ok lines = true -> good_lines T ->
+  good_lines (flat_map (print_refline (eol_of crlf)) lines ++ T).
 Proof.
-  intros H. destruct (prec_ok_parts al p H) as (Hid & Hac & Hna & Hde & Hm).
-  unfold print_body. repeat apply good_lines_app.
-  - apply good_field; auto.
-  - apply good_field; auto.
-  - apply good_field; auto.
-  - apply good_field; auto.
-  - apply good_matrix with (al := al). exact Hm.
+  induction lines as [|l lines IH]; intros H HT; [exact HT|].
+  cbn [forallb] in H. apply andb_true_iff in H. destruct H as [H1 H2].
+  cbn [flat_map]. rewrite <- app_assoc. apply good_refline; [exact H1|apply IH; assumption].
+Qed.
+
+Lemma good_item al crlf it T : item_ok al it = true -> good_lines T ->
+  good_lines (print_item (eol_of crlf) it ++ T).
+Proof.
+  intros Hok HT. destruct it as [num xref lines|k v|k v| |po sep syms rows]; cbn [print_item].
+  - cbn [item_ok] in Hok. apply andb_true_iff in Hok. destruct Hok as [Hok Hl].
+    apply andb_true_iff in Hok. destruct Hok as [Hn Hx].
+    assert (E : (["R"; "N"; " "; " "; "["] ++ num ++ ["]"] ++ print_xref xref ++ eol_of crlf ++
+                 flat_map (print_refline (eol_of crlf)) lines) ++ T
+              = "R" :: "N" :: ([" "; " "; "["] ++ num ++ ["]"] ++ print_xref xref) ++ eol_of crlf ++
+                flat_map (print_refline (eol_of crlf)) lines ++ T).
+    { rewrite <- !app_assoc. reflexivity. }
+    rewrite E. pose proof (label_plain num Hn) as Pn. destruct (plain_text num Pn) as [N1 N2].
+    assert (XR : no_nl (print_xref xref) = true /\ utf8_valid (print_xref xref) = true).
+    { destruct xref as [x|]; [|split; reflexivity]. cbn [xref_ok] in Hx. apply andb_true_iff in Hx.
+      destruct Hx as [Hx _]. destruct (field_ok_parts x Hx) as (X1 & X2 & _). cbn [print_xref]. split.
+      - rewrite !no_nl_app, X1. reflexivity.
+      - apply utf8_valid_app; [reflexivity|]. apply utf8_valid_app; [exact X2|reflexivity]. }
+    destruct XR as [XR1 XR2].
+    apply good_tagged; try reflexivity.
+    + rewrite !no_nl_app, N1, XR1. reflexivity.
+    + apply utf8_valid_app; [reflexivity|]. apply utf8_valid_app; [exact N2|].
+      apply utf8_valid_app; [reflexivity|exact XR2].
+    + apply good_reflines; assumption.
+  - destruct (field_ok_parts v Hok) as (H1 & H2 & _). cbn [app]. rewrite <- !app_assoc.
+    change (fst (field_tag k) :: snd (field_tag k) :: " " :: " " :: v ++ eol_of crlf ++ T)
+      with (fst (field_tag k) :: snd (field_tag k) :: (" " :: " " :: v) ++ eol_of crlf ++ T).
+    apply good_tagged; try exact HT; try (destruct k; reflexivity).
+    + cbn [no_nl forallb]. exact H1.
+    + exact H2.
+  - cbn [item_ok] in Hok. apply andb_true_iff in Hok. destruct Hok as [H1 H2].
+    cbn [app]. rewrite <- !app_assoc.
+    apply good_tagged; try exact HT; try (destruct k; reflexivity); assumption.
+  - apply good_xx. exact HT.
+  - destruct (item_ok_matrix al po sep syms rows Hok) as (c & cs & idx & r0 & rows' & -> & Ei & -> & Hsep & _ & Hrows).
+    destruct (sep_ok_parts sep Hsep) as (_ & Hbl & _).
+    fold (sym_text sep (c :: cs)). rewrite <- !app_assoc.
+    change (["P"; if po then "O" else "0"] ++ sym_text sep (c :: cs) ++ eol_of crlf ++
+            flat_map (print_row (eol_of crlf) sep) (r0 :: rows') ++ T)
+      with (("P" :: (if po then "O" else "0") :: sym_text sep (c :: cs)) ++ eol_of crlf ++
+            flat_map (print_row (eol_of crlf) sep) (r0 :: rows') ++ T).
+    assert (P : forallb plain ("P" :: (if po then "O" else "0") :: sym_text sep (c :: cs)) = true).
+    { cbn [forallb]. rewrite (sym_text_plain' al sep _ idx Hbl Ei). destruct po; reflexivity. }
+    destruct (plain_text _ P) as [P1 P2]. apply good_line; [reflexivity|exact P1|exact P2|].
+    apply (good_rows crlf sep (length (c :: cs))); assumption.
+Qed.
+
+Lemma good_body al crlf (p : prec) : prec_ok al p = true -> good_lines (print_body (eol_of crlf) p).
+Proof.
+  induction p as [|it p IH]; intros H; [apply gl_nil|].
+  cbn [prec_ok forallb] in H. apply andb_true_iff in H. destruct H as [H1 H2].
+  unfold print_body. cbn [flat_map]. apply (good_item al); [exact H1|apply IH; exact H2].
 Qed.
 
 (* ---- reading lines ---- *)
@@ -451,9 +487,10 @@ End Records.
 
 (* ---- the whole file ---- *)
 
-Lemma starts_vv_body eol p tl : starts_with ["V"; "V"] (print_body eol p ++ "/" :: "/" :: tl) = false.
+Lemma starts_vv_body eol (p : prec) tl : starts_with ["V"; "V"] (print_body eol p ++ "/" :: "/" :: tl) = false.
 Proof.
-  unfold print_body. destruct (p_ac p), (p_id p), (p_na p), (p_de p), (p_syms p), (p_po p); reflexivity.
+  destruct p as [|it p]; [reflexivity|]. unfold print_body. cbn [flat_map]. rewrite <- app_assoc.
+  destruct it as [num xref lines|k v|k v| |po sep syms rows]; cbn [print_item app xx_line]; try (destruct k); reflexivity.
 Qed.
 
 Lemma vv_ok_parts v : vv_ok (Some v) = true -> no_nl v = true /\ utf8_valid v = true.
